@@ -40,8 +40,8 @@ def begin_structure(ck, agg, nn):
             agg.add("R04.6", f, "_begin() does not raise for a 12-bit address", False, "raises %s" % out.value.exc)
             continue
         c = out.state.heap[node.ident].fields
-        lvl = const_of(norm(c.get("_net_lvl")))
-        agg.add("R04.1", f, "the network level is a definite number on every path", isinstance(lvl, int) and 0 <= lvl <= T.MAX_LEVEL, "level %r" % (c.get("_net_lvl"),))
+        lvl = const_of(norm(c.get(net.FN("_net_lvl"))))
+        agg.add("R04.1", f, "the network level is a definite number on every path", isinstance(lvl, int) and 0 <= lvl <= T.MAX_LEVEL, "level %r" % (c.get(net.FN("_net_lvl")),))
         if not isinstance(lvl, int):
             continue
         levels.add(lvl)
@@ -52,11 +52,11 @@ def begin_structure(ck, agg, nn):
         # own address: bits above the digits are zero, the digits are the input
         # (bits above the node's digits are zero on this path: the stored copy may or may not carry that refinement, depending on which
         # variable the digit-counting loop tested)
-        ok = all(bit_src(c.get("_addr"), i) == ("n_addr", i) if i < 3 * d else bit_src(c.get("_addr"), i) in (0, ("n_addr", i)) for i in range(NBITS))
-        agg.add("R04.1", f, "the stored address is the given one", ok, "level %d: %r" % (d, c.get("_addr")))
+        ok = all(bit_src(c.get(net.FN("_addr")), i) == ("n_addr", i) if i < 3 * d else bit_src(c.get(net.FN("_addr")), i) in (0, ("n_addr", i)) for i in range(NBITS))
+        agg.add("R04.1", f, "the stored address is the given one", ok, "level %d: %r" % (d, c.get(net.FN("_addr"))))
         # parent = address without its most significant digit; parent pipe = that digit
-        okp = all(bit_src(c.get("_parent"), i) == (("n_addr", i) if i < 3 * (d - 1) else 0) for i in range(NBITS)) if d else const_of(norm(c.get("_parent"))) == 0
-        agg.add("R04.1", f, "parent address = own address without its most significant octal digit", okp, "level %d: parent %r" % (d, c.get("_parent")))
+        okp = all(bit_src(c.get(net.FN("_parent")), i) == (("n_addr", i) if i < 3 * (d - 1) else 0) for i in range(NBITS)) if d else const_of(norm(c.get(net.FN("_parent")))) == 0
+        agg.add("R04.1", f, "parent address = own address without its most significant octal digit", okp, "level %d: parent %r" % (d, c.get(net.FN("_parent"))))
         okpp = all(bit_src(c.get("_parent_pipe"), i) == (("n_addr", 3 * (d - 1) + i) if i < 3 else 0) for i in range(NBITS)) if d else const_of(norm(c.get("_parent_pipe"))) == 0
         agg.add("R04.1", f, "parent pipe = the most significant octal digit of the own address", okpp, "level %d: parent pipe %r" % (d, c.get("_parent_pipe")))
         # R04.6: six pipes, each translated from the own address
@@ -80,7 +80,7 @@ def next_hop(ck, agg, nn):
         own = BitV(tuple(("s", ("own", i), False) if i < 3 * d else 0 for i in range(NBITS)), 0, (0, mask))
         for send_type in (0, 1, 2, 3, 4):
             n += 1
-            st, node = nn.fresh(fields={"_mask": mask, "_mask_inv": inv, "_addr": own if d else Const(0), "_parent": Sym("PARENT", "int"), "_parent_pipe": Sym("PPIPE", "int")})
+            st, node = nn.fresh(fields={"_mask": mask, "_mask_inv": inv, net.FN("_addr"): own if d else Const(0), net.FN("_parent"): Sym("PARENT", "int"), "_parent_pipe": Sym("PPIPE", "int")})
             to = node_bits("to")
             outs = nn.run(f, node, [to, Const(send_type)], st)
             kinds = set()
@@ -146,7 +146,7 @@ def child_window(ck, agg, nn):
                 continue
             n += 1
             to_val = own | (0o5555 & ((1 << (3 * (d + extra))) - 1) & ~mask)
-            st, node = nn.fresh(fields={"_mask": mask, "_mask_inv": inv, "_addr": own, "_parent": Sym("PARENT", "int"), "_parent_pipe": Sym("PPIPE", "int")})
+            st, node = nn.fresh(fields={"_mask": mask, "_mask_inv": inv, net.FN("_addr"): own, net.FN("_parent"): Sym("PARENT", "int"), "_parent_pipe": Sym("PPIPE", "int")})
             outs = nn.run(f, node, [Const(to_val), Const(T.CONSTANTS["TX_NORMAL"])], st)
             for out in outs:
                 nh = const_of(norm(out.value.items[0])) if out.kind == "return" and isinstance(out.value, Seq) else None
@@ -180,15 +180,24 @@ def tables(ck, agg, nn):
     mix = P.cls("network.mixins", "NetworkMixin")
     init = mix.lookup("__init__")[1]
     suffix = prefix = None
+    # the default tables are whatever value the constructor's assignments evaluate to (a list display, a bytes literal, a module
+    # constant ...): the right-hand sides are evaluated by the interpreter, not pattern-matched
+    from ..engine import Interp
+    from ..interp import State, Model, Frame
+    from ..model import Ctx
     for node in ast.walk(init.node):
-        if isinstance(node, ast.Assign) and isinstance(node.targets[0], ast.Attribute):
-            nm = node.targets[0].attr
-            if nm in ("address_suffix", "address_prefix") and isinstance(node.value, ast.Call) and node.value.args and isinstance(node.value.args[0], ast.List):
-                try:
-                    vals = [P.fold_const(init.module, e) for e in node.value.args[0].elts]
-                except ValueError:
-                    vals = None
-                if nm == "address_suffix":
+        if isinstance(node, (ast.Assign, ast.AnnAssign)):
+            tg = node.targets[0] if isinstance(node, ast.Assign) else node.target
+            if isinstance(tg, ast.Attribute) and tg.attr in ("address_suffix", "address_prefix") and node.value is not None:
+                it = Interp(P, Model(), Limits())
+                st0 = State()
+                fr0 = Frame(init, mix, Ctx(P, init, mix), st0, {}, 0, None)
+                vals = None
+                res = it.ev(node.value, st0, fr0)
+                if len(res) == 1:
+                    cb = it.concrete_bytes(res[0][1], res[0][0])
+                    vals = list(cb) if cb is not None else None
+                if tg.attr == "address_suffix":
                     suffix = vals
                 else:
                     prefix = vals
@@ -248,7 +257,7 @@ def reconfigure(ck, agg):
         for which in ("another address", "the address the node already has"):
             n += 1
             st, node = nn.fresh()
-            cur = st.heap[node.ident].fields["_addr"]
+            cur = st.heap[node.ident].fields[net.FN("_addr")]
             val = cur if which.startswith("the address") else Sym("val", "int", rng=(0, 0xFFFF))
             outs = nn.run(f, node, [val], st)
             for out in outs:
@@ -294,6 +303,8 @@ def run(ck):
     # "a multicast addressed to a level is transmitted to exactly that level's address": the level argument's domain (C14's R14.1)
     from . import c14
     n7 = c14.level_domain(ck, agg, net.NetNode(ck, "rf24_network", "RF24Network"))
+    # "pipe addresses never collide": byte k of a pipe address depends on exactly octal digit k-1 of the node address, for all four digits (R14.4)
+    c14.pipe_address(ck, agg, net.NetNode(ck, "rf24_network", "RF24Network"))
     agg.flush()
     ck.floor("R04.8", "node_address re-assignment scenarios", n6, 4)
     ck.floor("R04.1", "_begin paths", n1, 5)
